@@ -303,7 +303,7 @@ class Target:
     def __init__(self, lean_name, rel, cls, func, *, self_type=None, params=(), ret="K", kind="pure",
                  attrs=None, props=None, err_type=None, errs=None, calls=None, noise=None, unit=False,
                  extra_binders="", select=None, doc="", bool_result=False, locals_types=None, group="Battery",
-                 path=None, fuel=False, rec_err=None, inputs=None, colls=None):
+                 path=None, fuel=False, rec_err=None, inputs=None, colls=None, sig=None, noops=()):
         self.lean_name = lean_name
         self.rel = rel
         self.cls = cls
@@ -335,6 +335,9 @@ class Target:
         # source text of an iterable / sized object -> {"list": lean list, "attrs": {python attribute of an
         # element: lean field}, "props": {python property of an element: (file, class, property)}}
         self.colls = colls or {}
+        # kind 'state' (stateful methods, second part of this file): (mutates self?, may raise?, type of the value)
+        self.sig = sig
+        self.noops = set(noops)   # calls without an effect on the state (`self._print`), skipped like `warnings.warn`
 
 
 class Tr:
@@ -1868,22 +1871,1170 @@ TARGETS += [
            doc="TimeOfUseTariff._get_tariff_schedule: the list of schedules valid on (month, day) = `md`, "
                "weekday `wd` (`dow_mask[wd]` read as `mask.getD wd false`)", group="Tariff"),
 ]
+# ======================================================================================================
+# T1c, second part — STATEFUL methods (event queue, EVSE plug/unplug, network plug/unplug, _process_event)
+#
+# A method is translated as a function of an explicit `self` RECORD (the attributes it reads / writes, declared
+# per Lean type in OTYPES) that returns the updated record; `raise` is `.error .<PythonExceptionClass>` in the
+# generated enum `PyErr`.  The shape of the result is declared per target by `sig=(mut, exc, ret)`:
+#     mut exc ret     Except PyErr (Self × ret)          mut exc -      Except PyErr Self
+#     mut  -  ret     Self × ret                         mut  -  -      Self
+#      -  exc ret     Except PyErr ret                    -   -  ret    ret
+# and the translator REFUSES a body that does more than the declaration allows (assigns an attribute / calls a
+# mutating method although `mut` is false; may raise although `exc` is false).
+#
+#   statements   docstrings, `warnings.warn`, `pass`, declared no-op calls (`self._print("…")`)      skipped
+#                `x = e`, `self.a = e`, `d[k] = e` (mapped dict), `xs.append(e)` (local list)
+#                `return [e]`, `raise E(...)`
+#                `if / elif / else` (any mixture of falling through, returning, raising: the REST of the
+#                 function is continued in both branches), nothing is remembered about a test: `x.a` after
+#                 `if x is not None` reads `x` again, `AttributeError` if it is None, as Python does
+#                `for x in <list>: BODY` and `while c: BODY` (BODY without return / break / continue): an
+#                 auxiliary definition by recursion on the list / on `fuel`, carrying `self` and the locals
+#                 the body assigns; `.error .fuel` when the fuel of a `while` runs out (not a Python outcome:
+#                 the tie theorems show it is not reached for the fuel they name)
+#   expressions  evaluated in Python's order; every PARTIAL operation (index into a list, dict lookup, attribute
+#                of an Optional that is None, `max` of an empty list, a raising callee) and every MUTATING call
+#                is hoisted into a binding in front of the statement (A-normal form); the right operands of
+#                `and` / `or` are only evaluated when Python evaluates them (nested `match`), and may not mutate.
+#                `len`, `==`/`!=`/`<`/`<=`/`>`/`>=` (typed: Nat / Int / String / K), `in` a mapped dict,
+#                `is [not] None`, `not`, `and`, `or`, tuples of a declared entry type `(ts, event)` and their
+#                `[0]` / `[1]`, `max(xs, key=lambda x: …)`, list comprehensions over a list / `d.values()`,
+#                attribute reads through OTYPES, `@property` reads (inlined from their own single-`return`
+#                body), calls of translated methods of `self` / of an attribute / of a dict element / of a
+#                Optional attribute (`AttributeError` if it is None; the callee's updated state is written back to where the receiver
+#                was read from), declared external calls (`heapq.heappush/heappop` ↦ `Heap.heappush/heappop` of
+#                AcnModel/Queue.lean), declared constructors, and methods of an ABSTRACT receiver (`self.network.
+#                plugin(..)`) as function PARAMETERS of the definition.
+#   semantics    VALUE semantics: an object reachable through two access paths is two copies; none of the targets
+#                mutates such an object inside the translated method.  Nothing is guessed: whatever is not listed
+#                raises `Unsupported`, the definition is not emitted and its tie stops compiling.
+# ======================================================================================================
+
+import re as _re
+
+PYERRS = ["IndexError", "KeyError", "ValueError", "AttributeError", "TypeError", "ZeroDivisionError",
+          "StationOccupiedError", "InvalidRateError"]
+
+PRELUDE = '''/- GENERATED (fixed text) by harness/translate_code.py — do not edit.
+   How Python objects are represented in the translations of STATEFUL methods (T1c, DESIGN §17):
+   exception classes, heap entries `(timestamp, event)`, `dict` as an insertion-ordered association list,
+   `max(xs, key=…)`, and the records standing for `ChargingNetwork` / `Simulator` objects. -/
+import AcnModel.Evse
+import AcnModel.Queue
+
+namespace Acn.Gen.Code
+open Acn
+
+/-- the Python exception classes a translated method can raise.  `fuel` is NOT a Python outcome: the bound
+    of a translated `while` loop was reached (the tie theorems name a fuel for which it is not). -/
+inductive PyErr
+  | IndexError | KeyError | ValueError | AttributeError | TypeError | ZeroDivisionError
+  | StationOccupiedError | InvalidRateError | fuel
+  deriving DecidableEq, Repr, Inhabited
+
+/-- `heappop` of an empty list -/
+def qErrToPy : QErr → PyErr
+  | .indexError => .IndexError
+
+/-- what `Battery.charge` raises -/
+def battErrToPy : Battery.Err → PyErr
+  | .valueError => .ValueError
+  | .zeroDivision => .ZeroDivisionError
+
+/-- the heap entry `(ts, event)` of `EventQueue._queue`; the model keeps the entry's timestamp in the event -/
+def pyEntry (ts : Int) (e : Event) : Event := { e with ts := ts }
+/-- `entry[1]` -/
+def entryEvent (e : Event) : Event := e
+/-- `entry[0]` -/
+def entryTs (e : Event) : Int := e.ts
+
+/-- `d[k]` / `k in d` / `d.get(k)` on a `dict` with `str` keys kept as an association list in insertion order -/
+def dictGet? {β : Type} : List (String × β) → String → Option β
+  | [], _ => none
+  | (k', v) :: r, k => if k' = k then some v else dictGet? r k
+
+/-- `d[k] = v`: a known key keeps its position, a new key is appended -/
+def dictSet {β : Type} : List (String × β) → String → β → List (String × β)
+  | [], k, v => [(k, v)]
+  | (k', v') :: r, k, v => if k' = k then (k, v) :: r else (k', v') :: dictSet r k v
+
+/-- `d.values()` -/
+def dictValues {β : Type} (d : List (String × β)) : List β := d.map (·.2)
+
+/-- `max(xs, key=f)`: the FIRST maximal element (`None` stands for the `ValueError` of an empty argument) -/
+def pyMaxBy {α β : Type} [LT β] [DecidableLT β] (key : α → β) : List α → Option α
+  | [] => none
+  | x :: xs => some (xs.foldl (fun best y => if key best < key y then y else best) x)
+
+/-- `[f(x) for x in xs if c(x)]` where `c` / `f` may raise: `f x = .ok none` drops the element -/
+def pyComp {α β : Type} (f : α → Except PyErr (Option β)) : List α → Except PyErr (List β)
+  | [] => .ok []
+  | x :: xs =>
+    match f x with
+    | .error e => .error e
+    | .ok o =>
+      match pyComp f xs with
+      | .error e => .error e
+      | .ok r => .ok (match o with | some y => y :: r | none => r)
+
+/-- `UnplugEvent(timestamp, ev)` -/
+def pyUnplugEvent {K : Type} (ts : Int) (ev : Evse.Ev K) : Event := ⟨ts, .unplug, ev.session⟩
+
+/-- a `ChargingNetwork`, as far as plug-in / unplug go: `_EVSEs` -/
+structure PyNet (K : Type) where
+  evses : List (String × Evse.Evse K)
+
+/-- an event as `_process_event` sees it: the queue's event plus the `ev` attribute of Plugin / Unplug events -/
+structure PyEvent (K : Type) where
+  base : Event
+  ev : Evse.Ev K
+
+/-- a `Simulator`, as far as `_process_event` goes; `σ` is the network object, `τ` the event queue object -/
+structure PySim (K σ τ : Type) where
+  network : σ
+  queue : τ
+  evHistory : List (String × Evse.Ev K)
+  resolve : Bool
+  lastUpd : Option Int
+
+end Acn.Gen.Code
+'''
+
+_KW = {"end", "at", "from", "fun", "match", "with", "then", "else", "if", "do", "in", "let", "have", "show", "by",
+       "open", "where", "def", "theorem", "instance", "structure", "class", "deriving", "namespace", "section",
+       "variable", "universe", "import", "export", "Type", "Prop", "Sort", "x", "fuel", "rest'"}
+
+
+def _lname(py):
+    return py + "'" if py in _KW else py
+
+
+def _unparen(s):
+    s = s.strip()
+    if s.startswith("(") and s.endswith(")"):
+        depth = 0
+        for i, c in enumerate(s):
+            depth += c == "("
+            depth -= c == ")"
+            if depth == 0 and i < len(s) - 1:
+                return s
+        return s[1:-1].strip()
+    return s
+
+
+def _targ(ty, head):
+    """the argument of a unary type constructor application, e.g. _targ("Option (Evse.Ev K)", "Option")"""
+    ty = ty.strip()
+    if ty.startswith(head + " "):
+        return _unparen(ty[len(head) + 1:])
+    return None
+
+
+def _paren(ty):
+    return ty if _re.fullmatch(r"[\w.']+", ty) else f"({ty})"
+
+
+def _lean_ty(ty):
+    """the Lean spelling of a translator-level type"""
+    d = _targ(ty, "Dict")
+    if d is not None:
+        return f"List (String × {_lean_ty(d)})"
+    for h in ("Option", "List", "Array"):
+        a = _targ(ty, h)
+        if a is not None:
+            return f"{h} {_paren(_lean_ty(a))}"
+    return OTYPES.get(ty, {}).get("repr", ty)
+
+
+QPY = "acnportal/acnsim/events/event_queue.py"
+NETPY = "acnportal/acnsim/network/charging_network.py"
+SIMPY = "acnportal/acnsim/simulator.py"
+
+# Lean-side types of Python objects: attributes (python attribute -> (lean field path, type)), properties
+# (python @property -> (file, class) in which it is defined; inlined from its single-`return` body), methods
+# (python method -> lean name of a translated target, or an external specification)
+OTYPES = {
+    "Entry": {"repr": "Event", "tuple": ["Int", "Event"], "mk": "(pyEntry {0} {1})",
+              "get": ["(entryTs {0})", "(entryEvent {0})"]},
+    "Event": {"attrs": {"timestamp": ("ts", "Int"), "event_type": ("kind.name", "String")}},
+    "Queue.State": {"attrs": {"_queue": ("heap", "Array Entry"), "_timestep": ("timestep", "Int")},
+                    "methods": {"__len__": "queue_len", "empty": "queue_empty", "add_event": "queue_add_event",
+                                "add_events": "queue_add_events", "get_event": "queue_get_event",
+                                "get_current_events": "queue_get_current_events",
+                                "get_last_timestamp": "queue_get_last_timestamp"}},
+    "Evse.Ev K": {"attrs": {"_station_id": ("station", "String"), "_session_id": ("session", "String"),
+                            "_arrival": ("arrival", "Int"), "_departure": ("departure", "Int"),
+                            "_requested_energy": ("requested", "K"), "_energy_delivered": ("delivered", "K")},
+                  "props": {"station_id": (EVPY, "EV"), "session_id": (EVPY, "EV"), "arrival": (EVPY, "EV"),
+                            "departure": (EVPY, "EV"), "requested_energy": (EVPY, "EV"),
+                            "energy_delivered": (EVPY, "EV"), "remaining_demand": (EVPY, "EV"),
+                            "fully_charged": (EVPY, "EV")},
+                  "methods": {"charge": {"lean": "Evse.Ev.charge {recv}", "args": ["K", "K", "K"], "extra": ["ν"],
+                                         "mut": True, "exc": "battErrToPy", "ret": None}}},
+    "Evse.Evse K": {"attrs": {"_ev": ("ev", "Option (Evse.Ev K)"), "_current_pilot": ("pilot", "K"),
+                              "_station_id": ("station", "String")},
+                    "props": {"ev": (EVSEPY, "BaseEVSE"), "station_id": (EVSEPY, "BaseEVSE"),
+                              "current_pilot": (EVSEPY, "BaseEVSE")},
+                    "methods": {"plugin": "evse_plugin", "unplug": "evse_unplug", "set_pilot": "evse_set_pilot",
+                                # the abstract `_valid_rate(pilot)` (subclass dispatch, default `atol`): the model's
+                                # `validRate` on the EVSE's class, tied per class in CodeTieEvse
+                                "_valid_rate": {"lean": "Evse.validRate atol fixedAtol {recv}.kind", "args": ["K"],
+                                                "mut": False, "exc": None, "ret": "Bool"}}},
+    "PyNet K": {"attrs": {"_EVSEs": ("evses", "Dict (Evse.Evse K)")},
+                "methods": {"plugin": "net_plugin", "unplug": "net_unplug", "get_ev": "net_get_ev"}},
+    "PyEvent K": {"attrs": {"timestamp": ("base.ts", "Int"), "event_type": ("base.kind.name", "String"),
+                            "ev": ("ev", "Evse.Ev K")}},
+    # the network and the queue of a Simulator are ABSTRACT here: their methods are parameters of the translation
+    "σ": {"methods": {"plugin": {"lean": "netPlugin {recv}", "args": ["Evse.Ev K"], "mut": True, "exc": "id", "ret": None},
+                      "unplug": {"lean": "netUnplug {recv}", "args": ["String", "Option String"], "mut": True,
+                                 "exc": "id", "ret": None}}},
+    "τ": {"methods": {"add_event": {"lean": "queueAdd {recv}", "args": ["Event"], "mut": True, "exc": None, "ret": None}}},
+    "PySim K σ τ": {"attrs": {"network": ("network", "σ"), "event_queue": ("queue", "τ"),
+                              "ev_history": ("evHistory", "Dict (Evse.Ev K)"), "_resolve": ("resolve", "Bool"),
+                              "_last_schedule_update": ("lastUpd", "Option Int")}},
+}
+
+# external functions / constructors by their dotted source name.  `place` arguments are mutated in place by the
+# Python function: the Lean function returns the new value, which is written back
+EXTCALLS = {
+    "heapq.heappush": {"lean": "Heap.heappush Event.keyLt", "args": ["place:Array Entry", "Entry"], "exc": None,
+                       "ret": None},
+    "heapq.heappop": {"lean": "Heap.heappop Event.keyLt", "args": ["place:Array Entry"], "exc": "qErrToPy",
+                      "ret": "Entry", "order": "value_state"},
+    "UnplugEvent": {"lean": "pyUnplugEvent", "args": ["Int", "Evse.Ev K"], "exc": None, "ret": "Event"},
+}
+
+
+class _Env:
+    def __init__(self, vars=None):
+        self.vars = dict(vars or {})      # python name -> (lean name, type | [type] for a local)
+
+    def copy(self):
+        return _Env(self.vars)
+
+
+class _Place:
+    def __init__(self, read, ty, write=None):
+        self.read, self.ty, self.write = read, ty, write
+
+
+class STr:
+    """translator of one stateful method (kind 'state')"""
+
+    def __init__(self, target, source, tree, done=None):
+        self.t = _resolved(target, tree)
+        self.source, self.tree = source, tree
+        self.done = done if done is not None else {}
+        self.aux = []
+        self.n = 0
+        self.ltys = {}       # local name -> [type]  (a list so that `List ?` can be refined in place)
+        self.mut, self.exc, self.ret = self.t.sig
+        self.rd_self = "self"   # what `self` reads as (a property of another object is inlined with it rebound)
+
+    # ------------------------------------------------------------------ small things
+    def tmp(self, p="v"):
+        self.n += 1
+        return f"{p}{self.n}"
+
+    def need_exc(self, what):
+        if not self.exc:
+            raise Unsupported(f"{what} may raise, the tie expects a function that cannot")
+
+    def need_mut(self, what):
+        if not self.mut:
+            raise Unsupported(f"{what} changes the object, the tie expects a function that does not")
+
+    def otype(self, ty):
+        return OTYPES.get(ty)
+
+    def lit(self, node, want):
+        v = node.value
+        if v is None:
+            if want is not None and _targ(want, "Option") is None:
+                raise Unsupported(f"None where a {want} is expected")
+            return "none", want or "Option ?"
+        if isinstance(v, bool):
+            return ("true" if v else "false"), "Bool"
+        if isinstance(v, str):
+            if '"' in v or "\\" in v or "\n" in v:
+                raise Unsupported("string literal with quotes / escapes")
+            return f'"{v}"', "String"
+        if isinstance(v, int):
+            w = want if want in ("Nat", "Int", "K") else None
+            if w is None and want is not None and _targ(want, "Option") in ("Nat", "Int", "K"):
+                w = _targ(want, "Option")
+            if w is None:
+                raise Unsupported(f"integer literal {v} of unknown type")
+            if v < 0:
+                raise Unsupported("negative literal")
+            if w == "K":
+                return ("(0 : K)" if v == 0 else "(1 : K)" if v == 1 else f"(({v} : Nat) : K)"), "K"
+            return f"({v} : {w})", w
+        if isinstance(v, float):
+            text = ast.get_source_segment(self.source, node).replace("_", "")
+            fr = Fraction(text)
+            if fr.denominator == 1:
+                return self.lit(ast.Constant(value=int(fr.numerator)), "K")
+            return f"((({fr.numerator} : Nat) : K) / (({fr.denominator} : Nat) : K))", "K"
+        raise Unsupported(f"literal {v!r}")
+
+    def coerce(self, s, ty, want, what=""):
+        """`s : ty` where a `want` is expected: identical, or `T` into `Option T`"""
+        if want is None or ty == want:
+            return s
+        if ty == "Option ?" and _targ(want, "Option") is not None:
+            return s
+        if ty == "List ?" and _targ(want, "List") is not None:
+            return s
+        if _targ(want, "Option") == ty:
+            return f"(some {s})"
+        raise Unsupported(f"{what or s} has type {ty}, expected {want}")
+
+    # ------------------------------------------------------------------ bindings
+    def emit(self, pre, indent):
+        """the bindings `pre` as nested `let` / `match`, and the indentation of what follows them"""
+        out = ""
+        for b in pre:
+            if b[0] == "let":
+                out += f"{indent}let {b[1]} := {b[2]}\n"
+            elif b[0] == "exc":
+                self.need_exc(b[2])
+                err = ".error x" if b[3] in (None, "id") else f".error ({b[3]} x)"
+                scrut = f"({b[2]} : Except PyErr _)" if b[3] in (None, "id") else b[2]
+                out += f"{indent}match {scrut} with\n{indent}| .error x => {err}\n{indent}| .ok {b[1]} =>\n"
+                indent += "  "
+            elif b[0] == "opt":
+                self.need_exc(b[2])
+                out += f"{indent}match {b[2]} with\n{indent}| none => .error .{b[3]}\n{indent}| some {b[1]} =>\n"
+                indent += "  "
+            else:
+                raise Unsupported("internal: binding kind")
+        return out, indent
+
+    def inline(self, pre, tail):
+        """`pre; tail` as ONE parenthesised expression of type `Except PyErr _` (tail has that type)"""
+        for b in reversed(pre):
+            if b[0] == "let":
+                if b[1] == "self":
+                    raise Unsupported("a mutating call inside the right operand of and / or, or in a comprehension")
+                tail = f"(let {b[1]} := {b[2]}; {tail})"
+            elif b[0] == "exc":
+                err = ".error x" if b[3] in (None, "id") else f".error ({b[3]} x)"
+                scrut = f"({b[2]} : Except PyErr _)" if b[3] in (None, "id") else b[2]
+                tail = f"(match {scrut} with | .error x => {err} | .ok {b[1]} => {tail})"
+            elif b[0] == "opt":
+                tail = f"(match {b[2]} with | none => .error .{b[3]} | some {b[1]} => {tail})"
+        return tail
+
+    # ------------------------------------------------------------------ places (things that can be read and, maybe, written)
+    def prop_fn(self, rel, cls, name):
+        tree = self.tree if rel == self.t.rel else ast.parse(_src(rel))
+        c = [n for n in tree.body if isinstance(n, ast.ClassDef) and n.name == cls]
+        if len(c) != 1:
+            raise Unsupported(f"class {cls}")
+        fns = [n for n in c[0].body if isinstance(n, ast.FunctionDef) and n.name == name
+               and [ast.unparse(d) for d in n.decorator_list] == ["property"]]
+        if len(fns) != 1 or _fn_args(fns[0]) != ["self"]:
+            raise Unsupported(f"{cls}.{name} is not a property")
+        body = [s for s in fns[0].body if not _is_docstring(s)]
+        if len(body) != 1 or not isinstance(body[0], ast.Return) or body[0].value is None:
+            raise Unsupported(f"property {cls}.{name} is not a single return")
+        return body[0].value, (self.source if rel == self.t.rel else _src(rel))
+
+    def place(self, n, env, pre, for_write=False):
+        if isinstance(n, ast.Name):
+            if n.id == "self":
+                if self.rd_self != "self":
+                    return _Place(self.rd_self, self.rd_ty, None)
+                return _Place("self", self.t.self_type, lambda nv: [("let", "self", nv)])
+            if n.id in env.vars:
+                ln, ty = env.vars[n.id]
+                return _Place(ln, ty[0] if isinstance(ty, list) else ty, None)
+            raise Unsupported(f"free name {n.id}")
+        if isinstance(n, ast.Attribute):
+            base = self.place(n.value, env, pre)
+            bty = base.ty
+            inner = _targ(bty, "Option")
+            if inner is not None:
+                # attribute of an Optional object: Python raises AttributeError on None
+                v = self.tmp()
+                pre.append(("opt", v, base.read, "AttributeError"))
+                bw = base.write
+                base = _Place(v, inner, (lambda nv: bw(f"(some {nv})")) if bw else None)
+                bty = inner
+            ot = self.otype(bty)
+            if ot is None:
+                raise Unsupported(f"attribute {n.attr} of a {bty}")
+            if n.attr in ot.get("attrs", {}):
+                field, fty = ot["attrs"][n.attr]
+                w = None
+                if base.write is not None and "." not in field:
+                    w = lambda nv, b=base, f=field: b.write(f"{{ {b.read} with {f} := {nv} }}")
+                return _Place(f"{base.read}.{field}", fty, w)
+            if n.attr in ot.get("props", {}):
+                rel, cls = ot["props"][n.attr]
+                e, src = self.prop_fn(rel, cls, n.attr)
+                sub = STr.__new__(STr)
+                sub.__dict__.update(self.__dict__)
+                sub.rd_self, sub.rd_ty, sub.source = base.read, bty, src
+                sub.prop_write = base.write
+                if rel != self.t.rel:
+                    sub.tree = ast.parse(src)
+                # a property that just returns an attribute is a writable place; anything else is a value
+                if isinstance(e, ast.Attribute) and isinstance(e.value, ast.Name) and e.value.id == "self" \
+                        and e.attr in ot.get("attrs", {}):
+                    field, fty = ot["attrs"][e.attr]
+                    w = None
+                    if base.write is not None and "." not in field:
+                        w = lambda nv, b=base, f=field: b.write(f"{{ {b.read} with {f} := {nv} }}")
+                    return _Place(f"{base.read}.{field}", fty, w)
+                s, ty = sub.tex(e, _Env(), pre)
+                self.n = sub.n
+                return _Place(s, ty, None)
+            raise Unsupported(f"attribute {n.attr} of a {bty}")
+        if isinstance(n, ast.Subscript):
+            base = self.place(n.value, env, pre)
+            d = _targ(base.ty, "Dict")
+            if d is not None:
+                k, _ = self.tex(n.slice, env, pre, "String")
+                w = (lambda nv, b=base, k=k: b.write(f"(dictSet {b.read} {k} {nv})")) if base.write else None
+                if for_write:
+                    return _Place(None, d, w)
+                v = self.tmp()
+                pre.append(("opt", v, f"dictGet? {base.read} {k}", "KeyError"))
+                return _Place(v, d, w)
+            idx = n.slice
+            if not (isinstance(idx, ast.Constant) and isinstance(idx.value, int) and not isinstance(idx.value, bool)
+                    and idx.value >= 0):
+                raise Unsupported(f"subscript {ast.unparse(n)}")
+            ot = self.otype(base.ty)
+            if ot is not None and "tuple" in ot:
+                if idx.value >= len(ot["tuple"]):
+                    raise Unsupported(f"subscript {ast.unparse(n)}")
+                return _Place(ot["get"][idx.value].format(base.read), ot["tuple"][idx.value], None)
+            for h, acc in (("Array", "{0}[{1}]?"), ("List", "{0}[{1}]?")):
+                el = _targ(base.ty, h)
+                if el is not None:
+                    v = self.tmp()
+                    pre.append(("opt", v, acc.format(base.read, idx.value), "IndexError"))
+                    return _Place(v, el, None)
+            raise Unsupported(f"subscript of a {base.ty}")
+        # any other expression is a value that can only be read
+        s_, ty = self.tex(n, env, pre)
+        return _Place(s_, ty, None)
+
+    # ------------------------------------------------------------------ expressions
+    def tex(self, n, env, pre, want=None):
+        """(lean expression, type); partial / mutating sub-expressions are appended to `pre` in evaluation order"""
+        s, ty = self.tex0(n, env, pre, want)
+        return self.coerce(s, ty, want, ast.unparse(n)), (want if want is not None else ty)
+
+    def tex0(self, n, env, pre, want):
+        if isinstance(n, ast.Constant):
+            return self.lit(n, want)
+        if isinstance(n, (ast.Name, ast.Attribute, ast.Subscript)):
+            p = self.place(n, env, pre)
+            return p.read, p.ty
+        if isinstance(n, ast.Tuple):
+            ot = self.otype(want) if want else None
+            if ot is None or "tuple" not in ot or len(n.elts) != len(ot["tuple"]):
+                raise Unsupported(f"tuple {ast.unparse(n)}")
+            parts = [self.tex(e, env, pre, ty)[0] for e, ty in zip(n.elts, ot["tuple"])]
+            return ot["mk"].format(*parts), want
+        if isinstance(n, ast.List):
+            if n.elts:
+                raise Unsupported("list literal with elements")
+            return "[]", (want if want and _targ(want, "List") else "List ?")
+        if isinstance(n, (ast.Compare, ast.BoolOp)) or (isinstance(n, ast.UnaryOp) and isinstance(n.op, ast.Not)):
+            return self.tbool(n, env, pre), "Bool"
+        if isinstance(n, ast.BinOp):
+            op = {ast.Add: "+", ast.Sub: "-", ast.Mult: "*", ast.Div: "/"}.get(type(n.op))
+            if op is None:
+                raise Unsupported(f"operator {type(n.op).__name__}")
+            l, lt = self.tex(n.left, env, pre, want if isinstance(n.left, ast.Constant) else None)
+            r, rt = self.tex(n.right, env, pre, lt if isinstance(n.right, ast.Constant) else None)
+            if lt != rt or lt not in ("K", "Int", "Nat") or (op == "/" and lt != "K") or (op == "-" and lt == "Nat"):
+                raise Unsupported(f"arithmetic on {lt} and {rt}")
+            return f"({l} {op} {r})", lt
+        if isinstance(n, ast.ListComp):
+            return self.comp(n, env, pre)
+        if isinstance(n, ast.Call):
+            return self.call(n, env, pre, want)
+        raise Unsupported(f"expression {type(n).__name__}")
+
+    def typed_pair(self, a, b, env, pre):
+        """two operands of a comparison; a literal takes the type of the other side"""
+        if isinstance(a, ast.Constant) and not isinstance(b, ast.Constant):
+            r, rt = self.tex(b, env, pre)   # (a literal has no effects, the order does not matter)
+            l, lt = self.tex(a, env, pre, _targ(rt, "Option") or rt)
+        else:
+            l, lt = self.tex(a, env, pre)
+            r, rt = self.tex(b, env, pre, (_targ(lt, "Option") or lt) if isinstance(b, ast.Constant) else None)
+        return l, lt, r, rt
+
+    def cmp(self, left, op, right, env, pre):
+        if isinstance(op, (ast.Is, ast.IsNot)):
+            if not (isinstance(right, ast.Constant) and right.value is None):
+                raise Unsupported("`is` with something other than None")
+            l, lt = self.tex(left, env, pre)
+            if _targ(lt, "Option") is None:
+                raise Unsupported(f"`is None` of a {lt}")
+            return f"({l}).isNone" if isinstance(op, ast.Is) else f"({l}).isSome"
+        if isinstance(op, (ast.In, ast.NotIn)):
+            l, _ = self.tex(left, env, pre, "String")
+            r, rt = self.tex(right, env, pre)
+            if _targ(rt, "Dict") is None:
+                raise Unsupported(f"`in` a {rt}")
+            b = f"(dictGet? {r} {l}).isSome"
+            return b if isinstance(op, ast.In) else f"(!{b})"
+        l, lt, r, rt = self.typed_pair(left, right, env, pre)
+        if isinstance(op, (ast.Eq, ast.NotEq)):
+            if lt != rt:
+                # a value against an Optional value: `None == v` is False
+                if _targ(lt, "Option") == rt:
+                    r, rt = f"(some {r})", lt
+                elif _targ(rt, "Option") == lt:
+                    l, lt = f"(some {l})", rt
+                else:
+                    raise Unsupported(f"equality of a {lt} and a {rt}")
+            if (_targ(lt, "Option") or lt) not in ("Nat", "Int", "String", "Bool"):
+                raise Unsupported(f"equality on {lt}")
+            b = f"decide ({l} = {r})"
+            return b if isinstance(op, ast.Eq) else f"(!{b})"
+        if lt != rt or lt not in ("Nat", "Int", "K"):
+            raise Unsupported(f"comparison of a {lt} with a {rt}")
+        rel = {ast.Lt: f"{l} < {r}", ast.LtE: f"{l} ≤ {r}", ast.Gt: f"{r} < {l}", ast.GtE: f"{r} ≤ {l}"}.get(type(op))
+        if rel is None:
+            raise Unsupported(f"comparison {type(op).__name__}")
+        return f"decide ({rel})"
+
+    def tbool(self, n, env, pre):
+        """a pure Bool over the bindings appended to `pre`"""
+        if isinstance(n, ast.BoolOp):
+            first = self.tbool(n.values[0], env, pre)
+            subs, partial = [], False
+            for v in n.values[1:]:
+                p2 = []
+                subs.append((p2, self.tbool(v, env, p2)))
+                partial = partial or bool(p2)
+            is_and = isinstance(n.op, ast.And)
+            if not partial:
+                return "(" + (" && " if is_and else " || ").join([first] + [s for _p, s in subs]) + ")"
+            # Python evaluates an operand only if the ones before it did not decide
+            acc = None
+            for p2, s in reversed(subs):
+                if acc is None:
+                    cur = f".ok ({s})"
+                elif is_and:
+                    cur = f"(match {s} with | true => {acc} | false => .ok false)"
+                else:
+                    cur = f"(match {s} with | true => .ok true | false => {acc})"
+                acc = self.inline(p2, cur)
+            whole = (f"(match {first} with | true => {acc} | false => .ok false)" if is_and
+                     else f"(match {first} with | true => .ok true | false => {acc})")
+            v = self.tmp("c")
+            pre.append(("exc", v, whole, None))
+            return v
+        if isinstance(n, ast.UnaryOp) and isinstance(n.op, ast.Not):
+            return f"(!{self.tbool(n.operand, env, pre)})"
+        if isinstance(n, ast.Compare):
+            if len(n.ops) != 1:
+                raise Unsupported("comparison chain")
+            return self.cmp(n.left, n.ops[0], n.comparators[0], env, pre)
+        s, ty = self.tex(n, env, pre)
+        if ty != "Bool":
+            raise Unsupported(f"truth value of a {ty}")
+        return s
+
+    def comp(self, n, env, pre):
+        """`[elt for v in xs if c]` over a list / `d.values()`; `c` and `elt` may be partial"""
+        if len(n.generators) != 1 or n.generators[0].is_async or not isinstance(n.generators[0].target, ast.Name):
+            raise Unsupported("comprehension with several clauses / a pattern target")
+        g = n.generators[0]
+        var = g.target.id
+        if var in env.vars or var == "self":
+            raise Unsupported(f"comprehension variable {var} shadows another name")
+        it = g.iter
+        if isinstance(it, ast.Call) and isinstance(it.func, ast.Attribute) and it.func.attr == "values" and not it.args \
+                and not it.keywords:
+            d, dty = self.tex(it.func.value, env, pre)
+            el = _targ(dty, "Dict")
+            if el is None:
+                raise Unsupported(f".values() of a {dty}")
+            xs = f"(dictValues {d})"
+        else:
+            xs, xty = self.tex(it, env, pre)
+            el = _targ(xty, "List")
+            if el is None:
+                raise Unsupported(f"iteration over a {xty}")
+        lv = _lname(var)
+        env2 = env.copy()
+        env2.vars[var] = (lv, el)
+        p2 = []
+        conds = [self.tbool(c, env2, p2) for c in g.ifs]
+        c = " && ".join(conds) if conds else None
+        if c is not None and len(conds) > 1:
+            # several `if` clauses are evaluated like `and`
+            raise Unsupported("several if clauses")
+        p3 = []
+        e, ety = self.tex(n.elt, env2, p3)
+        inner = self.inline(p3, f".ok (some {e})")
+        if c is not None:
+            inner = f"(match {c} with | true => {inner} | false => .ok none)"
+        body = self.inline(p2, inner)
+        if not p2 and not p3:
+            # total: an ordinary filterMap
+            f = f"(fun {lv} => if {c} then some {e} else none)" if c is not None else f"(fun {lv} => some {e})"
+            return f"({xs}.filterMap {f})", f"List {_paren(ety)}"
+        v = self.tmp()
+        pre.append(("exc", v, f"pyComp (fun {lv} => {body}) {xs}", None))
+        return v, f"List {_paren(ety)}"
+
+    # ------------------------------------------------------------------ calls
+    def sig_of(self, lean_name):
+        ct = next((t for t in TARGETS if t.lean_name == lean_name), None)
+        if ct is None or ct.kind != "state":
+            raise Unsupported(f"{lean_name} is not a translation target")
+        if ct.group != self.t.group:
+            # a target of another group (another generated file, imported by this one)
+            if ct.group not in _STATUS:
+                gen_code(ct.group)
+            if _STATUS[ct.group].get(lean_name) != "ok":
+                raise Unsupported(f"{lean_name} (group {ct.group}) was not translated")
+        elif ct.lean_name != self.t.lean_name and self.done.get(lean_name) != "ok":
+            raise Unsupported(f"{lean_name} was not translated")
+        return ct
+
+    def args_of(self, n, types, env, pre, what):
+        if n.keywords or any(isinstance(a, ast.Starred) for a in n.args):
+            raise Unsupported(f"keyword / starred arguments of {what}")
+        if len(n.args) != len(types):
+            raise Unsupported(f"{what} is called with {len(n.args)} arguments, the tie expects {len(types)}")
+        return [self.tex(a, env, pre, ty)[0] for a, ty in zip(n.args, types)]
+
+    def apply(self, expr, recv, mut, exc, ret, pre, order="state_value"):
+        """bind the result of a call `expr` whose receiver is the place `recv`"""
+        if mut:
+            self.need_mut(expr)
+            if recv.write is None:
+                raise Unsupported(f"{expr} mutates an object the method cannot write back")
+        s, v = self.tmp("s"), self.tmp()
+        if mut and ret is not None:
+            pat = f"({s}, {v})" if order == "state_value" else f"({v}, {s})"
+        elif mut:
+            pat = s
+        else:
+            pat = v
+        if exc is not None:
+            pre.append(("exc", pat, expr, exc))
+        elif mut or ret is not None:
+            pre.append(("let", pat, expr))
+        if mut:
+            pre.extend(recv.write(s))
+        return (v if ret is not None else None), ret
+
+    def call(self, n, env, pre, want):
+        f = n.func
+        fname = ast.unparse(f)
+        if fname == "len" and len(n.args) == 1 and not n.keywords:
+            x, ty = self.tex(n.args[0], env, pre)
+            if _targ(ty, "Array") is not None:
+                return f"{x}.size", "Nat"
+            if _targ(ty, "List") is not None or _targ(ty, "Dict") is not None:
+                return f"{x}.length", "Nat"
+            raise Unsupported(f"len of a {ty}")
+        if fname == "max" and len(n.args) == 1 and [k.arg for k in n.keywords] == ["key"] \
+                and isinstance(n.keywords[0].value, ast.Lambda):
+            x, ty = self.tex(n.args[0], env, pre)
+            el = _targ(ty, "Array") or _targ(ty, "List")
+            if el is None:
+                raise Unsupported(f"max of a {ty}")
+            lam = n.keywords[0].value
+            if len(lam.args.args) != 1 or lam.args.defaults or lam.args.vararg or lam.args.kwarg:
+                raise Unsupported("key function")
+            a = lam.args.args[0].arg
+            if a in env.vars or a == "self":
+                raise Unsupported(f"lambda parameter {a} shadows another name")
+            env2 = env.copy()
+            env2.vars[a] = (_lname(a), el)
+            p2 = []
+            k, kty = self.tex(lam.body, env2, p2)
+            if p2 or kty not in ("Int", "Nat"):
+                raise Unsupported("key function is partial / not integer-valued")
+            lst = f"{x}.toList" if _targ(ty, "Array") is not None else x
+            v = self.tmp()
+            pre.append(("opt", v, f"pyMaxBy (fun {_lname(a)} => {k}) {lst}", "ValueError"))
+            return v, el
+        if fname in EXTCALLS and not (isinstance(f, ast.Name) and f.id in env.vars):
+            spec = EXTCALLS[fname]
+            if n.keywords or len(n.args) != len(spec["args"]):
+                raise Unsupported(f"arguments of {fname}")
+            args, recv = [], None
+            for a, ty in zip(n.args, spec["args"]):
+                if ty.startswith("place:"):
+                    p = self.place(a, env, pre)
+                    if p.ty != ty[6:]:
+                        raise Unsupported(f"{fname} on a {p.ty}")
+                    recv = p
+                    args.append(p.read)
+                else:
+                    args.append(self.tex(a, env, pre, ty)[0])
+            expr = f"{spec['lean']} {' '.join(args)}"
+            if recv is None:
+                if spec["exc"] is not None:
+                    v = self.tmp()
+                    pre.append(("exc", v, expr, spec["exc"]))
+                    return v, spec["ret"]
+                return f"({expr})", spec["ret"]
+            v, ty = self.apply(expr, recv, True, spec["exc"], spec["ret"], pre, spec.get("order", "state_value"))
+            return (v or "()"), (ty or "Unit")
+        if isinstance(f, ast.Attribute):
+            # xs.append(e) on a local list
+            if f.attr == "append" and isinstance(f.value, ast.Name) and f.value.id in env.vars and len(n.args) == 1 \
+                    and not n.keywords:
+                ln, tyb = env.vars[f.value.id]
+                ty = tyb[0] if isinstance(tyb, list) else tyb
+                el = _targ(ty, "List")
+                if el is None or not isinstance(tyb, list):
+                    raise Unsupported(f"append to {f.value.id} : {ty}")
+                e, ety = self.tex(n.args[0], env, pre, None if el == "?" else el)
+                if el == "?":
+                    tyb[0] = f"List {_paren(ety)}"
+                pre.append(("let", ln, f"({ln} ++ [{e}])"))
+                return "()", "Unit"
+            recv = self.place(f.value, env, pre)
+            rty = recv.ty
+            if _targ(rty, "Option") is not None:
+                v = self.tmp()
+                pre.append(("opt", v, recv.read, "AttributeError"))
+                w = recv.write
+                recv = _Place(v, _targ(rty, "Option"), (lambda nv: w(f"(some {nv})")) if w else None)
+                rty = recv.ty
+            ot = self.otype(rty)
+            if ot is None or f.attr not in ot.get("methods", {}):
+                raise Unsupported(f"method {f.attr} of a {rty}")
+            m = ot["methods"][f.attr]
+            if isinstance(m, dict):
+                args = self.args_of(n, m["args"], env, pre, fname)
+                expr = " ".join([m["lean"].format(recv=recv.read)] + args + list(m.get("extra", [])))
+                if not m["mut"] and m["exc"] is None:
+                    return f"({expr})", m["ret"]
+                v, ty = self.apply(expr, recv, m["mut"], m["exc"], m["ret"], pre)
+                return (v or "()"), (ty or "Unit")
+            ct = self.sig_of(m)
+            cmut, cexc, cret = ct.sig
+            own = [p for p in _resolved(ct, self.tree if ct.rel == self.t.rel else ast.parse(_src(ct.rel))).params
+                   if not p[0].startswith("$")]
+            args = self.args_of(n, [p[2] for p in own], env, pre, fname)
+            extra = [p[1] for p in ct.params if p[0].startswith("$")]
+            if ct.fuel and not self.t.fuel:
+                raise Unsupported(f"call of the fuelled {m} from a function without fuel")
+            expr = " ".join([ct.lean_name] + extra + (["fuel"] if ct.fuel else []) + [recv.read] + args)
+            if not cmut and not cexc:
+                return f"({expr})", cret
+            v, ty = self.apply(expr, recv, cmut, None if not cexc else "id", cret, pre)
+            return (v or "()"), (ty or "Unit")
+        raise Unsupported(f"call {fname}")
+
+    # ------------------------------------------------------------------ statements
+    def mkret(self, v):
+        if self.ret is None and v is not None:
+            raise Unsupported("the method returns a value, the tie expects none")
+        if self.ret is not None and v is None:
+            raise Unsupported("the method returns nothing, the tie expects a value")
+        val = ("(self, " + v + ")" if v is not None else "self") if self.mut else v
+        return f".ok {val}" if self.exc else val
+
+    def skip(self, s):
+        if _is_docstring(s) or _is_warn_call(s) or isinstance(s, ast.Pass):
+            return True
+        if isinstance(s, ast.Expr) and isinstance(s.value, ast.Call) and ast.unparse(s.value.func) in self.t.noops:
+            c = s.value
+            if c.keywords or not all(isinstance(a, (ast.Constant, ast.JoinedStr)) for a in c.args):
+                raise Unsupported(f"arguments of {ast.unparse(c.func)}")
+            for a in c.args:
+                if isinstance(a, ast.JoinedStr):
+                    raise Unsupported("f-string argument")
+            return True
+        return False
+
+    def block(self, body, env, indent, tail):
+        """`body` (a statement list) followed by `tail(env, indent)` where control falls off its end"""
+        body = list(body)
+        while body and self.skip(body[0]):
+            body.pop(0)
+        if not body:
+            return tail(env, indent)
+        s, rest = body[0], body[1:]
+        if isinstance(s, ast.Return):
+            pre = []
+            if s.value is None or (isinstance(s.value, ast.Constant) and s.value.value is None
+                                   and self.ret is None):
+                v = None
+            else:
+                v = self.tex(s.value, env, pre, self.ret)[0]
+            out, ind = self.emit(pre, indent)
+            return out + ind + self.mkret(v)
+        if isinstance(s, ast.Raise):
+            self.need_exc("raise")
+            exc = s.exc
+            name = exc.func.id if isinstance(exc, ast.Call) and isinstance(exc.func, ast.Name) else (
+                exc.id if isinstance(exc, ast.Name) else None)
+            if name not in PYERRS or s.cause is not None:
+                raise Unsupported(f"exception {name}")
+            p2 = []
+            if isinstance(exc, ast.Call):
+                for a in list(exc.args) + [k.value for k in exc.keywords]:
+                    self.msg(a, env, p2)
+            out, ind = self.emit(p2, indent)
+            return f"{out}{ind}.error .{name}"
+        if isinstance(s, ast.Expr):
+            if not isinstance(s.value, ast.Call):
+                raise Unsupported("expression statement")
+            pre = []
+            self.tex(s.value, env, pre)
+            env2 = self.after(pre, env)
+            out, ind = self.emit(pre, indent)
+            return out + self.block(rest, env2, ind, tail)
+        if isinstance(s, ast.Assign):
+            if len(s.targets) != 1:
+                raise Unsupported("multiple assignment targets")
+            tg = s.targets[0]
+            pre = []
+            env2 = env
+            if isinstance(tg, ast.Name):
+                if tg.id == "self" or tg.id in [p[0].lstrip("^$") for p in self.t.params if p[2] == "-"]:
+                    raise Unsupported(f"assignment to {tg.id}")
+                e, ty = self.tex(s.value, env, pre)
+                old = env.vars.get(tg.id)
+                if old is not None:
+                    oty = old[1][0] if isinstance(old[1], list) else old[1]
+                    e = self.coerce(e, ty, oty, ast.unparse(s.value))
+                    tyb = old[1]
+                else:
+                    tyb = [ty]
+                ln = _lname(tg.id)
+                if old is None and isinstance(tyb, list) and tyb[0] in ("List ?", "Option ?"):
+                    pre.append(("let", f"{ln} : ⟦{id(tyb)}⟧", e))
+                    self.ltys[id(tyb)] = tyb
+                else:
+                    pre.append(("let", ln, e))
+                env2 = self.after(pre, env)
+                env2.vars[tg.id] = (ln, tyb)
+            else:
+                p = self.place(tg, env, pre, for_write=True)
+                if p.write is None:
+                    raise Unsupported(f"assignment to {ast.unparse(tg)}")
+                self.need_mut(f"assignment to {ast.unparse(tg)}")
+                e, _ = self.tex(s.value, env, pre, p.ty)
+                pre.extend(p.write(e))
+                env2 = self.after(pre, env)
+            out, ind = self.emit(pre, indent)
+            return out + self.block(rest, env2, ind, tail)
+        if isinstance(s, ast.If):
+            return self.if_(s, rest, env, indent, tail)
+        if isinstance(s, ast.For):
+            return self.for_(s, rest, env, indent, tail)
+        if isinstance(s, ast.While):
+            return self.while_(s, rest, env, indent, tail)
+        raise Unsupported(f"statement {type(s).__name__}")
+
+    def msg(self, a, env, pre):
+        """an argument of an exception constructor: only its evaluation matters — what it reads is read (and raises
+        what that raises) before the exception itself; it may not mutate.  String formatting is accepted."""
+        if isinstance(a, ast.Constant):
+            return
+        if isinstance(a, ast.JoinedStr):
+            for v in a.values:
+                if isinstance(v, ast.FormattedValue):
+                    self.msg(v.value, env, pre)
+            return
+        if isinstance(a, ast.Call) and isinstance(a.func, ast.Attribute) and a.func.attr == "format" \
+                and isinstance(a.func.value, ast.Constant):
+            for x in a.args:
+                self.msg(x, env, pre)
+            return
+        p2 = []
+        self.tex(a, env, p2)
+        if any(b[0] == "let" for b in p2):
+            raise Unsupported("exception message with a call")
+        pre.extend(p2)
+
+    def after(self, pre, env):
+        return env.copy()
+
+    def if_(self, s, rest, env, indent, tail):
+        if _only_warns(s.body) and not s.orelse:
+            p0 = []
+            self.tbool(s.test, env, p0)
+            if not p0:
+                return self.block(rest, env, indent, tail)   # the test has no effect and cannot raise
+        t = s.test
+        pre = []
+        c = self.tbool(t, env, pre)
+        env1 = self.after(pre, env)
+        out, ind = self.emit(pre, indent)
+        a = self.block(list(s.body) + rest, env1.copy(), ind + "  ", tail)
+        b = self.block(list(s.orelse) + rest, env1.copy(), ind + "  ", tail)
+        return f"{out}{ind}if {c} then\n{a}\n{ind}else\n{b}"
+
+    # ------------------------------------------------------------------ loops
+    def loop_vars(self, body, test, rest, env, loopvar=None):
+        """(carried locals, read-only locals) of a loop; refuses exits other than the end of the body"""
+        stores, loads = [], set()
+        for st in body:
+            for m in ast.walk(st):
+                if isinstance(m, (ast.Break, ast.Continue, ast.Return, ast.For, ast.While, ast.FunctionDef, ast.Lambda,
+                                  ast.Raise)):
+                    raise Unsupported(f"{type(m).__name__} inside a loop body")
+                if isinstance(m, ast.Name):
+                    if isinstance(m.ctx, ast.Load):
+                        loads.add(m.id)
+                    elif m.id not in stores:
+                        stores.append(m.id)
+                if isinstance(m, ast.Call) and isinstance(m.func, ast.Attribute) and m.func.attr == "append" \
+                        and isinstance(m.func.value, ast.Name) and m.func.value.id not in stores:
+                    stores.append(m.func.value.id)
+        if test is not None:
+            for m in ast.walk(test):
+                if isinstance(m, ast.Name) and isinstance(m.ctx, ast.Load):
+                    loads.add(m.id)
+        after = set()
+        for st in rest:
+            for m in ast.walk(st):
+                if isinstance(m, ast.Name) and isinstance(m.ctx, ast.Load):
+                    after.add(m.id)
+        fresh = [k for k in stores if k not in env.vars] + ([loopvar] if loopvar else [])
+        if set(fresh) & after:
+            raise Unsupported(f"{sorted(set(fresh) & after)} assigned in the loop are read after it")
+        if loopvar and (loopvar in env.vars or loopvar == "self"):
+            raise Unsupported(f"loop variable {loopvar} rebinds a name")
+        params = [p[0].lstrip("^$") for p in self.t.params]
+        carried = [k for k in stores if k in env.vars]
+        if any(k in params for k in carried):
+            raise Unsupported(f"the loop assigns the parameter(s) {[k for k in carried if k in params]}")
+        ro = [k for k in env.vars if k in loads and k not in carried and k not in params]
+        return carried, ro
+
+    def loop_sig(self, carried, env):
+        tys = ([_lean_ty(self.t.self_type)] if self.mut else []) + [f"⟦{id(env.vars[k][1])}⟧" if isinstance(env.vars[k][1], list)
+                                                                       else _lean_ty(env.vars[k][1]) for k in carried]
+        for k in carried:
+            if isinstance(env.vars[k][1], list):
+                self.ltys[id(env.vars[k][1])] = env.vars[k][1]
+        names = (["self"] if self.mut else []) + [env.vars[k][0] for k in carried]
+        if not names:
+            raise Unsupported("a loop that changes nothing")
+        res = " × ".join(_paren(t) if " " in t and not t.startswith("⟦") else t for t in tys)
+        tup = names[0] if len(names) == 1 else "(" + ", ".join(names) + ")"
+        return tys, names, (f"Except PyErr ({res})" if self.exc else res), tup
+
+    def fixed_binders(self, ro, env, with_fuel):
+        bs, args = [], []
+        for p in self.t.params:
+            if p[2] != "-":
+                bs.append(f"({p[1]} : {_lean_ty(p[2])})")
+                args.append(p[1])
+        if with_fuel and self.t.fuel:
+            bs.insert(0, "(fuel : Nat)")
+            args.insert(0, "fuel")
+        if not self.mut:
+            bs.append(f"(self : {_lean_ty(self.t.self_type)})")
+            args.append("self")
+        for k in ro:
+            ty = env.vars[k][1]
+            bs.append(f"({env.vars[k][0]} : {_lean_ty(ty[0] if isinstance(ty, list) else ty)})")
+            args.append(env.vars[k][0])
+        return bs, args
+
+    def after_loop(self, name, call, names, tup, rest, env, indent, tail):
+        env2 = env.copy()
+        if self.exc:
+            out = f"{indent}match {call} with\n{indent}| .error x => .error x\n{indent}| .ok {tup} =>\n"
+            return out + self.block(rest, env2, indent + "  ", tail)
+        return f"{indent}let {tup} := {call}\n" + self.block(rest, env2, indent, tail)
+
+    def for_(self, s, rest, env, indent, tail):
+        if s.orelse or not isinstance(s.target, ast.Name):
+            raise Unsupported("for … else / pattern target")
+        x = s.target.id
+        pre = []
+        xs, xty = self.tex(s.iter, env, pre)
+        el = _targ(xty, "List")
+        if el is None:
+            raise Unsupported(f"iteration over a {xty}")
+        out0, indent = self.emit(pre, indent)
+        env = self.after(pre, env)
+        carried, ro = self.loop_vars(s.body, None, rest, env, x)
+        tys, names, res, tup = self.loop_sig(carried, env)
+        self.nloops = getattr(self, "nloops", 0) + 1
+        name = f"{self.t.lean_name}_loop" + ("" if self.nloops == 1 else str(self.nloops))
+        bs, args = self.fixed_binders(ro, env, True)
+        env2 = env.copy()
+        env2.vars[x] = (_lname(x), el)
+        call_again = " ".join([name] + args + ["rest'"] + names)
+        body = self.block(list(s.body), env2, "    ", lambda e, i: i + call_again)
+        done = (f".ok {tup}" if self.exc else tup)
+        self.aux.append(f"/-- the `for {x} in {ast.unparse(s.iter)}` loop of {'.'.join(self.t.path)} -/\n"
+                        f"def {name} {' '.join(bs)} : List {_paren(_lean_ty(el))} → {' → '.join(tys)} → {res}\n"
+                        f"  | [], {', '.join(names)} => {done}\n"
+                        f"  | {_lname(x)} :: rest', {', '.join(names)} =>\n{body}\n")
+        call = " ".join([name] + args + [xs] + names)
+        return out0 + self.after_loop(name, call, names, tup, rest, env, indent, tail)
+
+    def while_(self, s, rest, env, indent, tail):
+        if s.orelse:
+            raise Unsupported("while … else")
+        if not self.t.fuel:
+            raise Unsupported("a while loop in a function without fuel")
+        self.need_exc("a while loop (its fuel may run out)")
+        carried, ro = self.loop_vars(s.body, s.test, rest, env)
+        tys, names, res, tup = self.loop_sig(carried, env)
+        self.nloops = getattr(self, "nloops", 0) + 1
+        name = f"{self.t.lean_name}_loop" + ("" if self.nloops == 1 else str(self.nloops))
+        bs, args = self.fixed_binders(ro, env, False)
+        env2 = env.copy()
+        pre = []
+        c = self.tbool(s.test, env2, pre)
+        env3 = self.after(pre, env2)
+        out, ind = self.emit(pre, "    ")
+        call_again = " ".join([name] + args + ["fuel"] + names)
+        body = self.block(list(s.body), env3.copy(), ind + "  ", lambda e, i: i + call_again)
+        self.aux.append(f"/-- the `while {ast.unparse(s.test)}` loop of {'.'.join(self.t.path)} -/\n"
+                        f"def {name} {' '.join(bs)} : Nat → {' → '.join(tys)} → {res}\n"
+                        f"  | 0, {', '.join('_' for _ in names)} => .error .fuel\n"
+                        f"  | fuel + 1, {', '.join(names)} =>\n{out}{ind}if {c} then\n{body}\n{ind}else\n{ind}  .ok {tup}\n")
+        call = " ".join([name] + args + ["fuel"] + names)
+        return self.after_loop(name, call, names, tup, rest, env, indent, tail)
+
+    # ------------------------------------------------------------------ whole function
+    def function(self):
+        t = self.t
+        chain = _find_path(self.tree, t.path)
+        fn = chain[-1]
+        if fn.decorator_list and [ast.unparse(d) for d in fn.decorator_list] != ["property"]:
+            raise Unsupported("decorated function")
+        if len(chain) < 2 or not isinstance(chain[-2], ast.ClassDef) or _fn_args(fn)[:1] != ["self"]:
+            raise Unsupported("not a method")
+        env = _Env({p[0].lstrip("^$"): (p[1], p[2]) for p in t.params if p[2] != "-" and not p[0].startswith("$")})
+
+        def fall_off(e, i):
+            # control reaches the end of the function: `return None`
+            if self.ret is not None and _targ(self.ret, "Option") is None:
+                raise Unsupported("control reaches the end of the function without a return")
+            return i + self.mkret(None if self.ret is None else "none")
+        body = self.block(list(fn.body), env, "  ", fall_off)
+        return self.fill(body)
+
+    def fill(self, text):
+        for k, tyb in self.ltys.items():
+            if "?" in tyb[0]:
+                if f"⟦{k}⟧" in text or any(f"⟦{k}⟧" in a for a in self.aux):
+                    raise Unsupported("a local whose element type is never determined")
+            text = text.replace(f"⟦{k}⟧", _lean_ty(tyb[0]))
+            self.aux = [a.replace(f"⟦{k}⟧", _lean_ty(tyb[0])) for a in self.aux]
+        return text
+
+    def binders(self):
+        t = self.t
+        bs = [f"({p[1]} : {_lean_ty(p[2])})" for p in t.params if p[0].startswith("$")]
+        if t.fuel:
+            bs.append("(fuel : Nat)")
+        bs.append(f"(self : {_lean_ty(t.self_type)})")
+        bs += [f"({p[1]} : {_lean_ty(p[2])})" for p in t.params if not p[0].startswith("$") and p[2] != "-"]
+        return bs
+
+    def result_type(self):
+        st = _lean_ty(self.t.self_type)
+        r = _lean_ty(self.ret) if self.ret is not None else None
+        val = (f"{_paren(st)} × {_paren(r)}" if r else st) if self.mut else r
+        if val is None:
+            raise Unsupported("a method that neither changes the object nor returns a value")
+        return f"Except PyErr ({val})" if self.exc else val
+
+    def header(self):
+        tb = (" " + self.t.extra_binders) if self.t.extra_binders else ""
+        return f"def {self.t.lean_name}{tb} {' '.join(self.binders())} : {self.result_type()} :="
+
+
+# ---- stateful methods (kind 'state'): each group has its own generated file and its own tie module
+def _st(lean_name, rel, path, self_type, params, sig, group, doc, **kw):
+    return Target(lean_name, rel, None, path[-1], path=path, self_type=self_type, params=params, sig=sig,
+                  kind="state", group=group, doc=doc, **kw)
+
+
+TARGETS += [
+    # group QueueOps (C11, C01): events/event_queue.py on `Queue.State` of AcnModel/Queue.lean
+    _st("queue_len", QPY, ("EventQueue", "__len__"), "Queue.State", [], (False, False, "Nat"), "QueueOps",
+        "EventQueue.__len__"),
+    _st("queue_empty", QPY, ("EventQueue", "empty"), "Queue.State", [], (False, False, "Bool"), "QueueOps",
+        "EventQueue.empty"),
+    _st("queue_add_event", QPY, ("EventQueue", "add_event"), "Queue.State", [("event", "event", "Event")],
+        (True, False, None), "QueueOps", "EventQueue.add_event (heapq.heappush ↦ Heap.heappush)"),
+    _st("queue_add_events", QPY, ("EventQueue", "add_events"), "Queue.State", [("events", "events", "List Event")],
+        (True, False, None), "QueueOps", "EventQueue.add_events"),
+    _st("queue_get_event", QPY, ("EventQueue", "get_event"), "Queue.State", [], (True, True, "Event"), "QueueOps",
+        "EventQueue.get_event (heapq.heappop ↦ Heap.heappop)"),
+    _st("queue_get_current_events", QPY, ("EventQueue", "get_current_events"), "Queue.State",
+        [("timestep", "timestep", "Int")], (True, True, "List Event"), "QueueOps",
+        "EventQueue.get_current_events (the `while` loop by recursion on `fuel`)", fuel=True),
+    _st("queue_get_last_timestamp", QPY, ("EventQueue", "get_last_timestamp"), "Queue.State", [],
+        (False, True, "Option Int"), "QueueOps", "EventQueue.get_last_timestamp"),
+    # group EvseOps (C13, C01): models/evse.py BaseEVSE on `Evse.Evse K` of AcnModel/Evse.lean
+    _st("evse_plugin", EVSEPY, ("BaseEVSE", "plugin"), "Evse.Evse K", [("ev", "ev", "Evse.Ev K")], (True, True, None),
+        "EvseOps", "BaseEVSE.plugin"),
+    _st("evse_unplug", EVSEPY, ("BaseEVSE", "unplug"), "Evse.Evse K", [], (True, False, None), "EvseOps",
+        "BaseEVSE.unplug"),
+    _st("evse_set_pilot", EVSEPY, ("BaseEVSE", "set_pilot"), "Evse.Evse K",
+        [("$atol", "atol", "K"), ("$fixedAtol", "fixedAtol", "K"), ("$nu", "ν", "K"), ("pilot", "pilot", "K"),
+         ("voltage", "voltage", "K"), ("period", "period", "K")], (True, True, None), "EvseOps",
+        "BaseEVSE.set_pilot (`_valid_rate` ↦ Evse.validRate on the EVSE's class, `EV.charge` ↦ Evse.Ev.charge with the draw ν)"),
+    # group NetOps (C01, C13, C19): network/charging_network.py on `PyNet K` (`_EVSEs` as an association list)
+    _st("net_plugin", NETPY, ("ChargingNetwork", "plugin"), "PyNet K",
+        [("ev", "ev", "Evse.Ev K"), ("station_id", "station_id", "Option String")], (True, True, None), "NetOps",
+        "ChargingNetwork.plugin"),
+    _st("net_unplug", NETPY, ("ChargingNetwork", "unplug"), "PyNet K",
+        [("station_id", "station_id", "String"), ("session_id", "session_id", "Option String")], (True, True, None),
+        "NetOps", "ChargingNetwork.unplug"),
+    _st("net_get_ev", NETPY, ("ChargingNetwork", "get_ev"), "PyNet K", [("station_id", "station_id", "String")],
+        (False, True, "Option (Evse.Ev K)"), "NetOps", "ChargingNetwork.get_ev"),
+    _st("net_active_evs", NETPY, ("ChargingNetwork", "active_evs"), "PyNet K", [],
+        (False, True, "List (Option (Evse.Ev K))"), "NetOps", "ChargingNetwork.active_evs"),
+    # group SimEvent (C01, C05, C19): Simulator._process_event, parametric in the network and the queue object
+    _st("sim_process_event", SIMPY, ("Simulator", "_process_event"), "PySim K σ τ",
+        [("$np", "netPlugin", "σ → Evse.Ev K → Except PyErr σ"),
+         ("$nu", "netUnplug", "σ → String → Option String → Except PyErr σ"), ("$qa", "queueAdd", "τ → Event → τ"),
+         ("event", "event", "PyEvent K")], (True, True, None), "SimEvent",
+        "Simulator._process_event (network.plugin / network.unplug / event_queue.add_event are parameters)",
+        extra_binders="{σ τ : Type}", noops=("self._print",)),
+]
+
 TR_CLASS = {"net_limit_test": _NpTr, "alg_limit_test": _NpTr, "alg_limit_test_linear": _NpTr}
 
 PATHS = {(t.rel, t.path): t for t in TARGETS if t.path is not None and t.select is None}
 GROUP_IMPORTS = {"Fit": ["AcnModel.Sessions"], "Analysis": ["AcnModel.Analysis"], "Queue": ["AcnModel.Event"],
-                 "Tariff": ["AcnModel.Tariff"]}
+                 "Tariff": ["AcnModel.Tariff"], "QueueOps": ["AcnModel.Gen.CodePrelude"],
+                 "EvseOps": ["AcnModel.Gen.CodePrelude"], "NetOps": ["AcnModel.Gen.CodePrelude", "AcnModel.Gen.CodeEvseOps"],
+                 "SimEvent": ["AcnModel.Gen.CodePrelude"]}
 
 
-GROUPS = ["Battery", "Evse", "Sim", "Sorted", "Fit", "Net", "Analysis", "Queue", "Tariff"]  # "SortTable" targets are emitted outside the K-section of Sorted
+GROUPS = ["Battery", "Evse", "Sim", "Sorted", "Fit", "Net", "Analysis", "Queue", "Tariff",
+          "Prelude", "QueueOps", "EvseOps", "NetOps", "SimEvent"]  # "SortTable" targets are emitted outside the K-section of Sorted
+
+
+_STATUS = {}   # group -> {lean name: "ok" | "untranslated: …"} of the last gen_code(group) of this process
 
 
 def gen_code(group: str) -> str:
+    if group == "Prelude":
+        return PRELUDE
     out = ["/- GENERATED by harness/translate_code.py from /repo's working tree — do not edit.",
            "   Mechanical translation of the bodies of small numeric methods (T1c); the tie theorems",
            f"   `Gen.Code.<f> = <hand model>` are in AcnProofs/Lemmas/CodeTie{group}.lean. -/",
            "import AcnModel.Evse"] + [f"import {m}" for m in GROUP_IMPORTS.get(group, [])] + [
-           "", "namespace Acn.Gen.Code", "open Acn Acn.Battery Acn.Evse", "",
+           ""] + (["set_option linter.unusedVariables false", ""] if any(t.kind == "state" for t in TARGETS if t.group == group) else []) + [
+           "namespace Acn.Gen.Code", "open Acn Acn.Battery Acn.Evse", "",
            "section",
            "variable {K : Type} [Add K] [Sub K] [Mul K] [Div K] [Neg K] [LT K] [LE K]",
            "  [DecidableLT K] [DecidableLE K] [OfNat K 0] [OfNat K 1] [NatCast K] [HasExp K]", ""]
@@ -1898,6 +3049,8 @@ def gen_code(group: str) -> str:
             s, tree = cache[t.rel]
             cls = _AmpTr if t.lean_name == "amp_periods" else (_KeyTr if t.lean_name in ("laxity_key", "rpt_key") else Tr)
             cls = TR_CLASS.get(t.lean_name, cls)
+            if t.kind == "state":
+                cls = STr
             tr = cls(t, s, tree, done)
             body = tr.function()
             out.extend(tr.aux)
@@ -1934,6 +3087,7 @@ def gen_code(group: str) -> str:
                 out.append(f"/- {t.rel}: {t.doc}: NOT TRANSLATED — {type(e).__name__}: {msg} -/")
                 out.append("")
                 status.append((t.lean_name, f"untranslated: {msg}"))
+    _STATUS[group] = dict(status)
     out.append("/-- which targets were translated in this run -/")
     out.append(f"def translated{group} : List String := [" + ", ".join(f'"{n}"' for n, st in status if st == "ok") + "]")
     out.append("end Acn.Gen.Code")
